@@ -132,7 +132,8 @@ def run(module, cfg, workdir=None, workers=1, env=None, timeout=1800, extra=(), 
         # single-worker runs (trace validation: 16 of them side by side) start with a small heap and the serial collector,
         # so that a check's sixteen JVMs take a few hundred MB each instead of the default 1/64 of the machine's memory
         gc = ["-XX:+UseSerialGC", "-Xms64m"] if workers == 1 else ["-XX:+UseParallelGC"]
-        cmd = ["java"] + gc + ["-XX:+ExitOnOutOfMemoryError", "-Xss" + xss]
+        # (TLC unpacks its standard modules into java.io.tmpdir and leaves them there: keep that inside the scratch dir)
+        cmd = ["java"] + gc + ["-XX:+ExitOnOutOfMemoryError", "-Xss" + xss, "-Djava.io.tmpdir=" + scratch]
         if heap is None:
             heap = "3g" if workers == 1 else "12g"
         cmd.append("-Xmx" + heap)
